@@ -209,13 +209,91 @@ Proof.
     rewrite cll_cons. cbn [fst]. eapply KRf_trans; [eapply kreplay_facts; exact E|apply IHl; assumption].
 Qed.
 
+Lemma kreplay_fresh : forall s o rp rp', kreplay s o rp = Some rp' ->
+  forall q, In q (fst (tree_claims o)) -> mem_path q (rp_claimedF rp) = false.
+Proof.
+  intros s o. induction o as [q0 r e|p c f a k subs r cr ra sf IH|f a k subs r ra sf IH] using op_ind'; intros rp rp' H q Hq.
+  - destruct Hq.
+  - assert (L : forall rp rp', kreplay_list s subs rp = Some rp' -> forall q, In q (fst (cll subs)) -> mem_path q (rp_claimedF rp) = false).
+    { clear -IH. induction subs as [|x rest IHl]; intros rp rp' H q Hq; [destruct Hq|].
+      inversion IH as [|? ? Hx Hrest]; subst. rewrite kreplay_list_cons in H. destruct (kreplay s x rp) as [r1|] eqn:E; [|discriminate].
+      rewrite cll_cons in Hq. cbn [fst] in Hq. apply in_app_or in Hq. destruct Hq as [Hq|Hq]; [eapply Hx; eauto|].
+      rewrite <- (kr_cF _ _ _ _ (kreplay_facts _ _ _ _ E)). eapply IHl; eauto. }
+    rewrite kreplay_BF in H. rewrite tree_claims_BF in Hq.
+    destruct (negb (kversion_equal s f)); [discriminate|]. destruct sf; [discriminate|].
+    destruct (on_disk s p c cr ra); [|discriminate].
+    destruct (mem_path p (rp_claimedF rp) || path_eqb p (k_cachefile s)) eqn:Ecc; [discriminate|].
+    apply orb_false_iff in Ecc. destruct Ecc as [Ecc _].
+    destruct (missing_dirs (rp_fs rp) (k_cachefile s) (dirname p)) as [dirs|]; [|discriminate].
+    destruct (mkdir_all (rp_fs rp) dirs) as [fs1|]; [|discriminate].
+    destruct (kreplay_list s subs (rp_start rp p fs1 dirs)) as [r2|] eqn:Ekn; [|discriminate].
+    cbn [fst] in Hq. destruct Hq as [<-|Hq]; [exact Ecc|]. exact (L _ _ Ekn q Hq).
+  - assert (L : forall rp rp', kreplay_list s subs rp = Some rp' -> forall q, In q (fst (cll subs)) -> mem_path q (rp_claimedF rp) = false).
+    { clear -IH. induction subs as [|x rest IHl]; intros rp rp' H q Hq; [destruct Hq|].
+      inversion IH as [|? ? Hx Hrest]; subst. rewrite kreplay_list_cons in H. destruct (kreplay s x rp) as [r1|] eqn:E; [|discriminate].
+      rewrite cll_cons in Hq. cbn [fst] in Hq. apply in_app_or in Hq. destruct Hq as [Hq|Hq]; [eapply Hx; eauto|].
+      rewrite <- (kr_cF _ _ _ _ (kreplay_facts _ _ _ _ E)). eapply IHl; eauto. }
+    rewrite kreplay_SB in H. rewrite tree_claims_SB in Hq.
+    destruct (negb (kversion_equal s f)); [discriminate|]. destruct sf; [discriminate|]. cbn [orb] in H.
+    destruct (existsb (py_eq (subbuild_key f a k)) (rp_claimedS rp)); [discriminate|].
+    cbn [fst] in Hq. exact (L _ _ H q Hq).
+Qed.
+
+Lemma kreplay_list_fresh : forall s subs rp rp', kreplay_list s subs rp = Some rp' ->
+  forall q, In q (fst (cll subs)) -> mem_path q (rp_claimedF rp) = false.
+Proof.
+  intros s subs. induction subs as [|x rest IHl]; intros rp rp' H q Hq; [destruct Hq|].
+  rewrite kreplay_list_cons in H. destruct (kreplay s x rp) as [r1|] eqn:E; [|discriminate].
+  rewrite cll_cons in Hq. cbn [fst] in Hq. apply in_app_or in Hq. destruct Hq as [Hq|Hq]; [eapply kreplay_fresh; eauto|].
+  rewrite <- (kr_cF _ _ _ _ (kreplay_facts _ _ _ _ E)). eapply IHl; eauto.
+Qed.
+
+Lemma kreplay_nocf : forall s o rp rp', kreplay s o rp = Some rp' ->
+  forall q, In q (fst (tree_claims o)) -> q <> k_cachefile s.
+Proof.
+  intros s o. induction o as [q0 r e|p c f a k subs r cr ra sf IH|f a k subs r ra sf IH] using op_ind'; intros rp rp' H q Hq.
+  - destruct Hq.
+  - assert (L : forall rp rp', kreplay_list s subs rp = Some rp' -> forall q, In q (fst (cll subs)) -> q <> k_cachefile s).
+    { clear -IH. induction subs as [|x rest IHl]; intros rp rp' H q Hq; [destruct Hq|].
+      inversion IH as [|? ? Hx Hrest]; subst. rewrite kreplay_list_cons in H. destruct (kreplay s x rp) as [r1|] eqn:E; [|discriminate].
+      rewrite cll_cons in Hq. cbn [fst] in Hq. apply in_app_or in Hq. destruct Hq as [Hq|Hq]; [eapply Hx; eauto|].
+      eapply IHl; eauto. }
+    rewrite kreplay_BF in H. rewrite tree_claims_BF in Hq.
+    destruct (negb (kversion_equal s f)); [discriminate|]. destruct sf; [discriminate|].
+    destruct (on_disk s p c cr ra); [|discriminate].
+    destruct (mem_path p (rp_claimedF rp) || path_eqb p (k_cachefile s)) eqn:Ecc; [discriminate|].
+    apply orb_false_iff in Ecc. destruct Ecc as [_ Ecc]. apply path_eqb_neq in Ecc.
+    destruct (missing_dirs (rp_fs rp) (k_cachefile s) (dirname p)) as [dirs|]; [|discriminate].
+    destruct (mkdir_all (rp_fs rp) dirs) as [fs1|]; [|discriminate].
+    destruct (kreplay_list s subs (rp_start rp p fs1 dirs)) as [r2|] eqn:Ekn; [|discriminate].
+    cbn [fst] in Hq. destruct Hq as [<-|Hq]; [exact Ecc|]. exact (L _ _ Ekn q Hq).
+  - assert (L : forall rp rp', kreplay_list s subs rp = Some rp' -> forall q, In q (fst (cll subs)) -> q <> k_cachefile s).
+    { clear -IH. induction subs as [|x rest IHl]; intros rp rp' H q Hq; [destruct Hq|].
+      inversion IH as [|? ? Hx Hrest]; subst. rewrite kreplay_list_cons in H. destruct (kreplay s x rp) as [r1|] eqn:E; [|discriminate].
+      rewrite cll_cons in Hq. cbn [fst] in Hq. apply in_app_or in Hq. destruct Hq as [Hq|Hq]; [eapply Hx; eauto|].
+      eapply IHl; eauto. }
+    rewrite kreplay_SB in H. rewrite tree_claims_SB in Hq.
+    destruct (negb (kversion_equal s f)); [discriminate|]. destruct sf; [discriminate|]. cbn [orb] in H.
+    destruct (existsb (py_eq (subbuild_key f a k)) (rp_claimedS rp)); [discriminate|].
+    cbn [fst] in Hq. exact (L _ _ H q Hq).
+Qed.
+
+Lemma kreplay_list_nocf : forall s subs rp rp', kreplay_list s subs rp = Some rp' ->
+  forall q, In q (fst (cll subs)) -> q <> k_cachefile s.
+Proof.
+  intros s subs. induction subs as [|x rest IHl]; intros rp rp' H q Hq; [destruct Hq|].
+  rewrite kreplay_list_cons in H. destruct (kreplay s x rp) as [r1|] eqn:E; [|discriminate].
+  rewrite cll_cons in Hq. cbn [fst] in Hq. apply in_app_or in Hq. destruct Hq as [Hq|Hq]; [eapply kreplay_nocf; eauto|].
+  eapply IHl; eauto.
+Qed.
+
 (* ------------------------------------------------------------------ *)
 (* extension of a Core state by a run                                 *)
 (* ------------------------------------------------------------------ *)
 Record Ext (s s' : kstate) (cF : list path) (cS : list pyval) (D : list op) : Prop := mkExt {
   x_clF : exists eF, k_claimedF s' = eF ++ k_claimedF s /\ (forall q, In q eF <-> In q cF);
   x_clS : exists eS, k_claimedS s' = eS ++ k_claimedS s /\ (forall k, In k eS <-> In k cS);
-  x_newF : exists nF, k_newF s' = k_newF s ++ nF /\ (forall p o, In (p, o) nF -> In o D /\ shapeF p o);
+  x_newF : exists nF, k_newF s' = k_newF s ++ nF /\ (forall p o, In (p, o) nF -> In o D /\ shapeF p o /\ In p cF);
   x_newS : exists nS, k_newS s' = k_newS s ++ nS /\ (forall k o, In (k, o) nS -> In o D /\ shapeS k o /\ In k cS);
   x_pers : forall q g, mem_path q (k_claimedF s) = true -> lookup (k_fs s) q = Some (NFile g) ->
                        lookup (k_fs s') q = Some (NFile g);
@@ -223,7 +301,9 @@ Record Ext (s s' : kstate) (cF : list path) (cS : list pyval) (D : list op) : Pr
   x_vis : forall q g, lookup (k_fs s') q = Some (NFile g) ->
             lookup (k_fs s) q = Some (NFile g) \/ stale_get (k_stale s) q = Some g \/ In q cF;
   x_stale : forall q g, stale_get (k_stale s') q = Some g -> stale_get (k_stale s) q = Some g;
-  x_const : k_old s' = k_old s /\ k_vers s' = k_vers s /\ k_cachefile s' = k_cachefile s
+  x_const : k_old s' = k_old s /\ k_vers s' = k_vers s /\ k_cachefile s' = k_cachefile s;
+  x_fresh : forall q, In q cF -> mem_path q (k_claimedF s) = false;
+  x_nocf : forall q, In q cF -> q <> k_cachefile s
 }.
 
 Lemma Ext_same : forall s s' D,
@@ -241,6 +321,8 @@ Proof.
   - intros q g H. left. rewrite <- E1. exact H.
   - intros q g H. rewrite <- E2. exact H.
   - auto.
+  - intros q [].
+  - intros q [].
 Qed.
 
 Lemma Ext_refl : forall s D, Ext s s [] [] D.
@@ -249,15 +331,17 @@ Proof. intros. apply Ext_same; reflexivity. Qed.
 Lemma Ext_trans : forall a b c cF1 cS1 cF2 cS2 D,
   Ext a b cF1 cS1 D -> Ext b c cF2 cS2 D -> Ext a c (cF1 ++ cF2) (cS1 ++ cS2) D.
 Proof.
-  intros a b c cF1 cS1 cF2 cS2 D [[eF1 [A1 A1']] [eS1 [A2 A2']] [nF1 [A3 A3']] [nS1 [A4 A4']] A5 A6 A7 A8 A9]
-         [[eF2 [B1 B1']] [eS2 [B2 B2']] [nF2 [B3 B3']] [nS2 [B4 B4']] B5 B6 B7 B8 B9].
+  intros a b c cF1 cS1 cF2 cS2 D [[eF1 [A1 A1']] [eS1 [A2 A2']] [nF1 [A3 A3']] [nS1 [A4 A4']] A5 A6 A7 A8 A9 A10 A11]
+         [[eF2 [B1 B1']] [eS2 [B2 B2']] [nF2 [B3 B3']] [nS2 [B4 B4']] B5 B6 B7 B8 B9 B10 B11].
   constructor.
   - exists (eF2 ++ eF1). split; [rewrite B1, A1, app_assoc; reflexivity|].
     intro q. rewrite !in_app_iff, A1', B1'. tauto.
   - exists (eS2 ++ eS1). split; [rewrite B2, A2, app_assoc; reflexivity|].
     intro q. rewrite !in_app_iff, A2', B2'. tauto.
   - exists (nF1 ++ nF2). split; [rewrite B3, A3, app_assoc; reflexivity|].
-    intros p o H. apply in_app_or in H. destruct H; auto.
+    intros p o H. apply in_app_or in H. destruct H as [H|H].
+    + destruct (A3' _ _ H) as [X [Y Z]]. split; [exact X|]. split; [exact Y|apply in_or_app; left; exact Z].
+    + destruct (B3' _ _ H) as [X [Y Z]]. split; [exact X|]. split; [exact Y|apply in_or_app; right; exact Z].
   - exists (nS1 ++ nS2). split; [rewrite B4, A4, app_assoc; reflexivity|].
     intros k o H. apply in_app_or in H. destruct H as [H|H].
     + destruct (A4' _ _ H) as [X [Y Z]]. split; [exact X|]. split; [exact Y|apply in_or_app; left; exact Z].
@@ -272,12 +356,16 @@ Proof.
     + right. right. apply in_or_app. right. exact H.
   - intros q g H. apply A8, B8, H.
   - destruct A9 as [X1 [X2 X3]], B9 as [Y1 [Y2 Y3]]. repeat split; congruence.
+  - intros q Hq. apply in_app_or in Hq. destruct Hq as [Hq|Hq]; [apply A10; exact Hq|].
+    pose proof (B10 q Hq) as H. rewrite A1, mem_path_app in H. apply orb_false_iff in H. tauto.
+  - intros q Hq. apply in_app_or in Hq. destruct Hq as [Hq|Hq]; [apply A11; exact Hq|].
+    destruct A9 as [_ [_ X3]]. rewrite <- X3. apply B11. exact Hq.
 Qed.
 
 Lemma Ext_D : forall a b cF cS D D', incl D D' -> Ext a b cF cS D -> Ext a b cF cS D'.
 Proof.
-  intros a b cF cS D D' Hi [A1 A2 [nF [A3 A3']] [nS [A4 A4']] A5 A6 A7 A8 A9]. constructor; auto.
-  - exists nF. split; [exact A3|]. intros p o H. destruct (A3' _ _ H). split; auto.
+  intros a b cF cS D D' Hi [A1 A2 [nF [A3 A3']] [nS [A4 A4']] A5 A6 A7 A8 A9 A10 A11]. constructor; auto.
+  - exists nF. split; [exact A3|]. intros p o H. destruct (A3' _ _ H) as [X [Y Z]]. split; auto.
   - exists nS. split; [exact A4|]. intros k o H. destruct (A4' _ _ H) as [X [Y Z]]. split; auto.
 Qed.
 
@@ -287,7 +375,7 @@ Lemma Ext_start : forall s p fs1 dirs f sa skw D,
   setup_fs (k_fs s) (k_cachefile s) p = inl (fs1, dirs) ->
   Ext s (core_start (core_s0 s p fs1 dirs) p f sa skw) [p] [] D.
 Proof.
-  intros s p fs1 dirs f sa skw D Hc Hs. destruct (claim_check_none _ _ _ Hc) as [Hp _].
+  intros s p fs1 dirs f sa skw D Hc Hs. destruct (claim_check_none _ _ _ Hc) as [Hp Hpcf].
   constructor; cbn.
   - exists [p]. split; [reflexivity|intros; cbn; tauto].
   - exists []. split; [reflexivity|intros; cbn; tauto].
@@ -302,6 +390,8 @@ Proof.
     destruct (setup_char _ _ _ _ _ Hs q) as [E|[_ [E _]]]; congruence.
   - intros q g H. eapply stale_del_get; eauto.
   - auto.
+  - intros q [<-|[]]. exact Hp.
+  - intros q [<-|[]]. exact Hpcf.
 Qed.
 
 Lemma core_finish_rec : forall s2 p c f sa skw bsubs res pend2 s3 out o,
@@ -319,7 +409,7 @@ Lemma Ext_finish_rel : forall s s2 cF0 cS D p c f sa skw bsubs res pend2 s3 out 
   Ext s s2 cF0 cS D -> In p cF0 -> mem_path p (k_claimedF s) = false ->
   core_finish s2 p c f sa skw bsubs res pend2 = (s3, out, o) -> In o D -> Ext s s3 cF0 cS D.
 Proof.
-  intros s s2 cF0 cS D p c f sa skw bsubs res pend2 s3 out o [A1 A2 [nF [A3 A3']] A4 A5 A6 A7 A8 A9] Hp Hnc H Ho.
+  intros s s2 cF0 cS D p c f sa skw bsubs res pend2 s3 out o [A1 A2 [nF [A3 A3']] A4 A5 A6 A7 A8 A9 A10 A11] Hp Hnc H Ho.
   destruct (core_finish_rec _ _ _ _ _ _ _ _ _ _ _ _ H) as (r & cr & ra & Hrec).
   assert (Sh : shapeF p o) by (subst o; repeat eexists).
   unfold core_finish in H.
@@ -394,7 +484,7 @@ Lemma Ext_hitF : forall s p fs1 dirs c fname sa skw f subs' ret' r,
   Ext s (core_put (adopt (core_s0 s p fs1 dirs) r o) p f) (fst (tree_claims o)) (snd (tree_claims o)) (deep o).
 Proof.
   intros s p fs1 dirs c fname sa skw f subs' ret' r Hc Hs Hh o.
-  destruct (claim_check_none _ _ _ Hc) as [Hp _].
+  destruct (claim_check_none _ _ _ Hc) as [Hp Hpcf].
   destruct (core_hit_inv _ _ _ _ _ _ _ _ _ _ Hh) as [Hph Hkr].
   pose proof (kreplay_list_facts _ _ _ _ Hkr) as [K1 K2 K3 K4 K5].
   destruct (tree_regs_spec o) as [R1 R2].
@@ -420,6 +510,10 @@ Proof.
       * destruct (phys_cases _ _ _ _ X1) as [X|X]; [left; apply Hfile0; exact X|right; left; exact X].
   - intros q g H. apply stale_del_get in H. apply fold_stale_del_get in H. exact H.
   - auto.
+  - intros q Hq. unfold o in Hq. rewrite tree_regs_claims_BF_nonsf in Hq. cbn [fst] in Hq. destruct Hq as [<-|Hq]; [exact Hp|].
+    exact (kreplay_list_fresh _ _ _ _ Hkr q Hq).
+  - intros q Hq. unfold o in Hq. rewrite tree_regs_claims_BF_nonsf in Hq. cbn [fst] in Hq. destruct Hq as [<-|Hq]; [exact Hpcf|].
+    exact (kreplay_list_nocf _ _ _ _ Hkr q Hq).
 Qed.
 
 Lemma core_subhit_inv : forall s fname key subs' ret' r,
@@ -437,7 +531,8 @@ Lemma Ext_hitS : forall s fname sa skw subs' ret' r,
   Ext s (adopt s r o) (fst (tree_claims o)) (snd (tree_claims o)) (deep o).
 Proof.
   intros s fname sa skw subs' ret' r Hh o.
-  pose proof (kreplay_list_facts _ _ _ _ (core_subhit_inv _ _ _ _ _ _ Hh)) as [K1 K2 K3 K4 K5].
+  pose proof (core_subhit_inv _ _ _ _ _ _ Hh) as Hkr.
+  pose proof (kreplay_list_facts _ _ _ _ Hkr) as [K1 K2 K3 K4 K5].
   destruct (tree_regs_spec o) as [R1 R2].
   constructor; cbn [adopt ks_with k_claimedF k_claimedS k_newF k_newS k_fs k_stale k_old k_vers k_cachefile].
   - exists (fst (tree_claims o)). split; [reflexivity|intros; tauto].
@@ -451,6 +546,8 @@ Proof.
     destruct (phys_cases _ _ _ _ X1) as [X|X]; [left; exact X|right; left; exact X].
   - intros q g H. apply fold_stale_del_get in H. exact H.
   - auto.
+  - intros q Hq. unfold o in Hq. rewrite tree_claims_SB in Hq. cbn [fst] in Hq. exact (kreplay_list_fresh _ _ _ _ Hkr q Hq).
+  - intros q Hq. unfold o in Hq. rewrite tree_claims_SB in Hq. cbn [fst] in Hq. exact (kreplay_list_nocf _ _ _ _ Hkr q Hq).
 Qed.
 
 Lemma Ext_substart : forall s f sa skw D, Ext s (core_substart s f sa skw) [] [subbuild_key f sa skw] D.
@@ -460,12 +557,13 @@ Proof.
   - exists [subbuild_key f sa skw]. split; [reflexivity|intros; cbn; tauto].
   - exists []. split; [rewrite app_nil_r; reflexivity|intros ? ? []].
   - exists []. split; [rewrite app_nil_r; reflexivity|intros ? ? []].
+  - intros q [].
 Qed.
 
 Lemma Ext_subreg : forall s s2 cF cS D key o,
   Ext s s2 cF cS D -> In o D -> shapeS key o -> In key cS -> Ext s (core_subreg s2 key o) cF cS D.
 Proof.
-  intros s s2 cF cS D key o [A1 A2 A3 [nS [A4 A4']] A5 A6 A7 A8 A9] Ho Hs Hk. constructor; cbn; auto.
+  intros s s2 cF cS D key o [A1 A2 A3 [nS [A4 A4']] A5 A6 A7 A8 A9 A10 A11] Ho Hs Hk. constructor; cbn; auto.
   exists (nS ++ [(key, o)]). split; [rewrite A4, app_assoc; reflexivity|].
   intros k0 o0 Hx. apply in_app_or in Hx. destruct Hx as [Hx|[Hx|[]]]; [auto|]. inversion Hx; subst. auto.
 Qed.
